@@ -198,6 +198,21 @@ class Base(_BaseClass):
         """
         return normalize(x)
 
+    @staticmethod
+    def _normalizeatkeyword(keyword):
+        r"""
+        normalizes an at-keyword for comparison. The tokenizer keeps the
+        literal text of the at-keywords it knows as token value, so unicode
+        escapes ("@\69mport", "@m\65 dia") are resolved here, then
+        ``_normalize`` is applied
+        """
+        def repl(m):
+            num = int(m.group(0)[1:], 16)
+            if num <= sys.maxunicode:
+                return chr(num) if sys.version_info[0] >= 3 else unichr(num)  # noqa
+            return m.group(0)
+        return normalize(tokenize2.Tokenizer.unicodesub(repl, keyword))
+
     def _splitNamespacesOff(self, text_namespaces_tuple):
         """
         returns tuple (text, dict-of-namespaces) or if no namespaces are
